@@ -49,9 +49,12 @@ func (f *Cond) Call(s *slip.Scope, args slip.List, depth int) (result slip.Objec
 		if !ok || len(clause) == 0 {
 			slip.TypePanic(s, depth, "clause", a, "list")
 		}
-		if slip.EvalArg(s, clause, 0, d2) == nil {
+		test := slip.EvalArg(s, clause, 0, d2)
+		if test == nil {
 			continue
 		}
+		// A clause without forms yields the value of its test-form.
+		result = test
 		for i := 1; i < len(clause); i++ {
 			result = slip.EvalArg(s, clause, i, d2)
 		}
